@@ -146,7 +146,10 @@ def data_convs(tier, rng, limits=(0,), lmtp_modes=((0, 0), (1, 0), (1, 1))):
               LOOKALIKES[2] + b"RSET\r\n", b"q" + LOOKALIKES[3] + b"\r\n", b".\rMAIL FROM:<bait@x>\r\n", b"..\r\n\r\r\n",
               b"0123456789\r\n", b"01234567\r\n"]
     backends = [g.ddec(), g.ddec(want=0), g.ddec(want=1, ret=g.er(b"no")), g.ddec(rsz=7, ret=g.se(550, "5.6.0", b"rejected")),
-                g.ddec(ret="prop", rsz=3), g.ddec(want=5, rsz=2)]
+                g.ddec(ret="prop", rsz=3), g.ddec(want=5, rsz=2),
+                # a backend that hands the reader to io.Copy (which prefers the reader's own WriteTo, if it has one), at once or after
+                # sniffing three octets (rsz >= 32768, see the harness)
+                g.ddec(ret="prop", rsz=32768), g.ddec(rsz=32771)]
     for lm, ls in lmtp_modes:
         for lim in limits:
             for body in bodies:
